@@ -483,7 +483,10 @@ class Base(_BaseClass):
             fulltokenizer = tokenizer
 
         if fulltokenizer:
-            prods = self._adddefaultproductions(productions, new)
+            # the default productions report through `new`: callers which do
+            # not pass one still get the verdict
+            defaultnew = new if new is not None else {'wellformed': True}
+            prods = self._adddefaultproductions(productions, defaultnew)
             for token in fulltokenizer:
                 p = prods.get(token[0], default)
                 if p:
@@ -491,6 +494,8 @@ class Base(_BaseClass):
                 else:
                     wellformed = False
                     self._log.error('Unexpected token (%s, %s, %s, %s)' % token)
+            if new is None and not defaultnew['wellformed']:
+                wellformed = False
         return wellformed, expected
 
 
